@@ -175,6 +175,37 @@ fn definite_comparison(
         return false;
     }
     let effective_op = if flipped { flip_op(op) } else { *op };
+    // Integer statistics against an integer literal compare EXACTLY: through
+    // f64, 2^53 and 2^53 + 1 are the same number.
+    let int_bounds: Option<(i64, i64)> = match stats {
+        ParquetStatistics::Int64(s) => match (s.min_opt(), s.max_opt()) {
+            (Some(a), Some(b)) => Some((*a, *b)),
+            _ => return false,
+        },
+        ParquetStatistics::Int32(s) => match (s.min_opt(), s.max_opt()) {
+            (Some(a), Some(b)) => Some((*a as i64, *b as i64)),
+            _ => return false,
+        },
+        _ => None,
+    };
+    let int_literal: Option<i64> = match literal {
+        ScalarValue::Int64(v) => Some(*v),
+        ScalarValue::Int32(v) => Some(*v as i64),
+        ScalarValue::Date32(v) => Some(*v as i64),
+        ScalarValue::Timestamp(v) => Some(*v),
+        _ => None,
+    };
+    if let (Some((min, max)), Some(val)) = (int_bounds, int_literal) {
+        return match effective_op {
+            BinaryOp::Lt => max < val,
+            BinaryOp::LtEq => max <= val,
+            BinaryOp::Gt => min > val,
+            BinaryOp::GtEq => min >= val,
+            BinaryOp::Eq => min == val && max == val,
+            BinaryOp::NotEq => val < min || val > max,
+            _ => false,
+        };
+    }
     let (min, max): (f64, f64) = match stats {
         ParquetStatistics::Int64(s) => match (s.min_opt(), s.max_opt()) {
             (Some(a), Some(b)) => (*a as f64, *b as f64),
@@ -198,6 +229,23 @@ fn definite_comparison(
         ScalarValue::Timestamp(v) => *v as f64,
         _ => return false,
     };
+    // A float is involved. The row-level comparison is arrow's total order
+    // (-0.0 < 0.0, NaN = NaN); the bounds are IEEE. Around zero, NaN and
+    // beyond 2^53 (where the i64 -> f64 conversion above is lossy) the
+    // bounds prove nothing.
+    const EXACT: f64 = 9_007_199_254_740_992.0;
+    if val.is_nan()
+        || min.is_nan()
+        || max.is_nan()
+        || val == 0.0
+        || min == 0.0
+        || max == 0.0
+        || val.abs() >= EXACT
+        || min.abs() >= EXACT
+        || max.abs() >= EXACT
+    {
+        return false;
+    }
     match effective_op {
         BinaryOp::Lt => max < val,
         BinaryOp::LtEq => max <= val,
@@ -304,9 +352,11 @@ fn check_i32_stats(stats: &ParquetStatistics, op: BinaryOp, val: i32) -> bool {
             if s.min_opt().is_none() || s.max_opt().is_none() {
                 return true;
             }
-            let min = *s.min_opt().unwrap() as i32;
-            let max = *s.max_opt().unwrap() as i32;
-            eval_range_i32(op, val, min, max)
+            // Widen the literal, never narrow the statistics: `as i32` on an
+            // i64 bound wraps (2^53 became 0) and pruned groups that match.
+            let min = *s.min_opt().unwrap();
+            let max = *s.max_opt().unwrap();
+            eval_range(op, val as i64, min, max)
         }
         _ => true,
     }
@@ -384,6 +434,13 @@ fn eval_range_i32(op: BinaryOp, val: i32, min: i32, max: i32) -> bool {
 }
 
 fn eval_range_f64(op: BinaryOp, val: f64, min: f64, max: f64) -> bool {
+    // The row-level comparison is arrow's TOTAL order (-0.0 < 0.0, NaN equal
+    // to itself), while statistics are kept under IEEE comparison, where the
+    // two zeros are one value and either may have been recorded. Around zero
+    // and NaN the bounds say nothing reliable: keep the row group.
+    if val.is_nan() || min.is_nan() || max.is_nan() || val == 0.0 || min == 0.0 || max == 0.0 {
+        return true;
+    }
     match op {
         BinaryOp::Eq => min <= val && val <= max,
         BinaryOp::NotEq => !(min == val && max == val),
